@@ -1,4 +1,5 @@
 import FCA.Proofs.Junctors
+import FCA.Proofs.Render
 /-
 Property C16 — `relations()` classifies each pair of contingent properties once and correctly.
 
@@ -339,6 +340,396 @@ example : (relations pinnedTable (mkCtx 3 4 #[0b0101, 0b0111, 0b1110]) true).map
 example : (mkCtx 3 4 #[0b0101, 0b0111, 0b1110]).WF ∧ 0 < (mkCtx 3 4 #[0b0101, 0b0111, 0b1110]).n :=
   ⟨mkCtx_WF _ _ _ rfl (by decide), by decide⟩
 
+/-! ### unary entries keep property order (stability with `include_unary`) -/
+
+/-- with `include_unary` the entries of one rank are: the unary entries of that rank in property
+order, followed by the binary entries of that rank in `combinations` order -/
+theorem C16_unary_stable {T : JTable} {K : Ctx} (hT : T.Good) (hK : K.WF) (hn : 0 < K.n) (k : Int) :
+    (relations T K true).filter (fun a => decide (a.order = k)) =
+      ((List.range K.m).map fun p => specUnary K.n p (K.cols[p]!)).filter (fun a => decide (a.order = k)) ++
+      ((combos2 (contingentProps K)).map fun q =>
+        specBinary K.n q.1 q.2 (K.cols[q.1]!) (K.cols[q.2]!)).filter (fun a => decide (a.order = k)) := by
+  rw [relations_eq hT hK hn, filter_sortRel, if_pos rfl, List.filter_append]
+  rfl
+
+/-- in particular the properties reported with one unary kind (rank `k`: -2 contradiction,
+-1 tautology, 0 contingency) are listed in ascending property order -/
+theorem C16_unary_stable_props {T : JTable} {K : Ctx} (hT : T.Good) (hK : K.WF) (hn : 0 < K.n) (k : Int) :
+    ((relations T K true).filter (fun a => a.right.isNone && decide (a.order = k))).map (·.left) =
+      (List.range K.m).filter (fun p => decide (unaryRank (unaryCode K.n (K.cols[p]!)) = k)) := by
+  have hf : ∀ l : List RelItem, l.filter (fun a => a.right.isNone && decide (a.order = k)) =
+      (l.filter (fun a => decide (a.order = k))).filter (fun a => a.right.isNone) := by
+    intro l; rw [List.filter_filter]
+  rw [hf, C16_unary_stable hT hK hn, List.filter_append]
+  have h2 : (((combos2 (contingentProps K)).map fun q =>
+        specBinary K.n q.1 q.2 (K.cols[q.1]!) (K.cols[q.2]!)).filter (fun a => decide (a.order = k))).filter
+        (fun a => a.right.isNone) = [] := by
+    rw [List.filter_eq_nil_iff]
+    intro a ha
+    obtain ⟨q, _, rfl⟩ := List.mem_map.mp (List.mem_filter.mp ha).1
+    have := right_specBinary K.n q.1 q.2 (K.cols[q.1]!) (K.cols[q.2]!)
+    rw [Option.isSome_iff_ne_none] at this
+    simp [this]
+  rw [h2, List.append_nil, List.filter_filter, List.filter_map, List.map_map]
+  have h3 : ((fun a : RelItem => a.right.isNone && decide (a.order = k)) ∘
+      fun p => specUnary K.n p (K.cols[p]!)) =
+      fun p => decide (unaryRank (unaryCode K.n (K.cols[p]!)) = k) := by
+    funext p; simp [specUnary]
+  rw [h3]
+  conv_rhs => rw [← List.map_id (List.filter _ _)]
+  apply List.map_congr_left
+  intro p _
+  rfl
+
+example : ((relations pinnedTable (mkCtx 3 4 #[0b0101, 0b0111, 0b1110]) true).filter
+    (fun a => a.right.isNone && decide (a.order = 0))).map (·.left) = [0, 1, 3] := by decide
+
+/-! ### first match = last match (`find?` of the model vs. the Python dict) -/
+
+theorem C16_table_nodup : pinnedTable.NoDupPatterns ∧ pinnedTable.NoDupNames := by decide
+
+/-- For a well-formed table without duplicate patterns: each of the seven binary and three unary
+patterns is the pattern of exactly one entry, and looking a pattern up from the front (`find?`, the
+model) or from the back (the entry defined last wins: Python's `__map[pattern] = cls`) gives the
+same entry — for every pattern. -/
+theorem C16_good_patterns_once {T : JTable} (hT : T.Good) (hN : T.NoDupPatterns) :
+    (∀ c ∈ [15, 7, 13, 11, 9, 14, 6], (T.binary.filter (·.pattern == c)).length = 1) ∧
+    (∀ c ∈ [1, 2, 3], (T.unary.filter (·.pattern == c)).length = 1) ∧
+    (∀ c, T.binary.reverse.find? (·.pattern == c) = T.binary.find? (·.pattern == c)) ∧
+    (∀ c, T.unary.reverse.find? (·.pattern == c) = T.unary.find? (·.pattern == c)) := by
+  obtain ⟨h6, h11, _, hu⟩ := hT
+  refine ⟨fun c hc => ?_, fun c hc => ?_, fun c => find?_reverse_of_nodup JEntry.pattern c _ hN.1,
+    fun c => find?_reverse_of_nodup JEntry.pattern c _ hN.2⟩
+  · have hle := filter_length_le_one_of_nodup JEntry.pattern c T.binary hN.1
+    have hsome : (T.binary.find? (·.pattern == c)).isSome = true := by
+      by_cases h : c = 11
+      · subst h
+        simp only [JTable.binInfo, Option.map_map] at h11
+        cases hf : T.binary.find? (·.pattern == 11) with
+        | none => rw [hf] at h11; cases h11
+        | some e => rfl
+      · have hc' : c ∈ [15, 7, 13, 9, 14, 6] := by
+          simp only [List.mem_cons, List.not_mem_nil, or_false] at hc ⊢; tauto
+        have := h6 c hc'
+        simp only [JTable.binInfo] at this
+        cases hf : T.binary.find? (·.pattern == c) with
+        | none => rw [hf] at this; cases this
+        | some e => rfl
+    have := filter_length_pos_of_find? _ _ hsome
+    omega
+  · have hle := filter_length_le_one_of_nodup JEntry.pattern c T.unary hN.2
+    have hsome : (T.unary.find? (·.pattern == c)).isSome = true := by
+      have := hu c hc
+      simp only [JTable.unInfo] at this
+      cases hf : T.unary.find? (·.pattern == c) with
+      | none => rw [hf] at this; cases this
+      | some e => rfl
+    have := filter_length_pos_of_find? _ _ hsome
+    omega
+
+/-- likewise the lookups by class name (`Implication`, `Replication`, `Contingency`) do not depend on
+the direction of the search when no name is used twice -/
+theorem C16_good_names_once {T : JTable} (hN : T.NoDupNames) (s : String) :
+    T.binary.reverse.find? (·.name == s) = T.binary.find? (·.name == s) ∧
+    T.unary.reverse.find? (·.name == s) = T.unary.find? (·.name == s) := by
+  unfold JTable.NoDupNames at hN
+  rw [List.map_append, List.nodup_append] at hN
+  exact ⟨find?_reverse_of_nodup JEntry.name s _ hN.2.1, find?_reverse_of_nodup JEntry.name s _ hN.1⟩
+
+example : pinnedTable.Good ∧ pinnedTable.NoDupPatterns := ⟨by decide, by decide⟩
+/-- a table with a repeated pattern is rejected by the predicate -/
+example : ¬ (JTable.mk [] [⟨"A", "a", 1, 9⟩, ⟨"B", "b", 2, 9⟩]).NoDupPatterns := by decide
+
+/-! ### the kinds, read on the objects -/
+
+section objects
+variable {T : JTable} {n l r cl cr : Nat}
+
+/-- what each kind says about the objects `i < n` (`i ∈ᵇ cl`: object `i` has the left property):
+* equivalent: every object has both or neither;
+* complement: every object has exactly one;
+* incompatible: no object has both, and some object has neither;
+* implication (either direction): every object with the one has the other, and not conversely;
+* subcontrary: every object has at least one, some object has both, neither column contains the other;
+* orthogonal: all four combinations occur. -/
+theorem C16_kind_objects (hT : T.Good) (hl : Bounded n cl) (hr : Bounded n cr)
+    (hcl : unaryCode n cl = 3) (hcr : unaryCode n cr = 3) {it : RelItem}
+    (h : classifyBinary T n l r cl cr = some it) :
+    (it.kind = "equivalent" ↔ ∀ i, i < n → (i ∈ᵇ cl ↔ i ∈ᵇ cr)) ∧
+    (it.kind = "complement" ↔ ∀ i, i < n → (i ∈ᵇ cl ↔ ¬ i ∈ᵇ cr)) ∧
+    (it.kind = "incompatible" ↔
+      (∀ i, ¬ (i ∈ᵇ cl ∧ i ∈ᵇ cr)) ∧ ∃ i, i < n ∧ ¬ i ∈ᵇ cl ∧ ¬ i ∈ᵇ cr) ∧
+    (it.kind = "implication" ↔
+      ((∀ i, i ∈ᵇ cl → i ∈ᵇ cr) ∧ ∃ i, i ∈ᵇ cr ∧ ¬ i ∈ᵇ cl) ∨
+      ((∀ i, i ∈ᵇ cr → i ∈ᵇ cl) ∧ ∃ i, i ∈ᵇ cl ∧ ¬ i ∈ᵇ cr)) ∧
+    (it.kind = "subcontrary" ↔
+      (∀ i, i < n → i ∈ᵇ cl ∨ i ∈ᵇ cr) ∧ (∃ i, i ∈ᵇ cl ∧ i ∈ᵇ cr) ∧
+      (∃ i, i ∈ᵇ cl ∧ ¬ i ∈ᵇ cr) ∧ (∃ i, i ∈ᵇ cr ∧ ¬ i ∈ᵇ cl)) ∧
+    (it.kind = "orthogonal" ↔
+      (∃ i, i ∈ᵇ cl ∧ i ∈ᵇ cr) ∧ (∃ i, i ∈ᵇ cl ∧ ¬ i ∈ᵇ cr) ∧ (∃ i, i ∈ᵇ cr ∧ ¬ i ∈ᵇ cl) ∧
+      (∃ i, i < n ∧ ¬ i ∈ᵇ cl ∧ ¬ i ∈ᵇ cr)) := by
+  obtain ⟨h1, h2, h3, h4, h5, _⟩ := C16_semantics hT hl hr hcl hcr h
+  refine ⟨h1.trans (eq_iff_forall_lt hl hr), h2.trans ?_, h3.trans ?_, h4.trans ?_, h5.trans ?_,
+    C16_orthogonal_iff hT hl hr hcl hcr h⟩
+  · rw [and_eq_zero_iff_forall, or_eq_full_iff hl hr]
+    constructor
+    · rintro ⟨a, b⟩ i hi
+      exact ⟨fun h1 h2 => a i ⟨h1, h2⟩, fun h2 => (b i hi).resolve_right h2⟩
+    · intro a
+      refine ⟨fun i hi => ((a i (hl i hi.1)).mp hi.1) hi.2, fun i hi => ?_⟩
+      by_cases h2 : i ∈ᵇ cr
+      · exact Or.inr h2
+      · exact Or.inl ((a i hi).mpr h2)
+  · rw [and_eq_zero_iff_forall, or_ne_full_iff hl hr]
+  · constructor
+    · rintro ⟨a | a, b⟩
+      · left
+        refine ⟨a, not_sub_iff.mp fun hs => b (sub_antisymm a hs)⟩
+      · right
+        refine ⟨a, not_sub_iff.mp fun hs => b (sub_antisymm hs a)⟩
+    · rintro (⟨a, i, hi, hi'⟩ | ⟨a, i, hi, hi'⟩)
+      · exact ⟨Or.inl a, fun he => hi' (he ▸ hi)⟩
+      · exact ⟨Or.inr a, fun he => hi' (he ▸ hi)⟩
+  · rw [and_ne_zero_iff, or_eq_full_iff hl hr, not_sub_iff, not_sub_iff]
+    exact ⟨fun ⟨a, b, c, d⟩ => ⟨b, a, c, d⟩, fun ⟨b, a, c, d⟩ => ⟨a, b, c, d⟩⟩
+
+end objects
+
+/-- … and for the entries of `relations` themselves, with the orientation the entry reports:
+`has i p` = object `i` has property `p`. An `implication` entry `left → right` says: every object
+with `left` has `right`, and some object has `right` without `left`. -/
+theorem C16_kind_objects_relations {T : JTable} {K : Ctx} (hT : T.Good) (hK : K.WF) (hn : 0 < K.n)
+    (iu : Bool) (x : RelItem) (hx : x ∈ relations T K iu) (q : Nat) (hq : x.right = some q) :
+    x.left < K.m ∧ q < K.m ∧ x.left ≠ q ∧
+    (x.kind = "equivalent" ↔ ∀ i, i < K.n → (i ∈ᵇ K.cols[x.left]! ↔ i ∈ᵇ K.cols[q]!)) ∧
+    (x.kind = "complement" ↔ ∀ i, i < K.n → (i ∈ᵇ K.cols[x.left]! ↔ ¬ i ∈ᵇ K.cols[q]!)) ∧
+    (x.kind = "incompatible" ↔
+      (∀ i, ¬ (i ∈ᵇ K.cols[x.left]! ∧ i ∈ᵇ K.cols[q]!)) ∧
+      ∃ i, i < K.n ∧ ¬ i ∈ᵇ K.cols[x.left]! ∧ ¬ i ∈ᵇ K.cols[q]!) ∧
+    (x.kind = "implication" ↔
+      (∀ i, i ∈ᵇ K.cols[x.left]! → i ∈ᵇ K.cols[q]!) ∧ ∃ i, i ∈ᵇ K.cols[q]! ∧ ¬ i ∈ᵇ K.cols[x.left]!) ∧
+    (x.kind = "subcontrary" ↔
+      (∀ i, i < K.n → i ∈ᵇ K.cols[x.left]! ∨ i ∈ᵇ K.cols[q]!) ∧ (∃ i, i ∈ᵇ K.cols[x.left]! ∧ i ∈ᵇ K.cols[q]!) ∧
+      (∃ i, i ∈ᵇ K.cols[x.left]! ∧ ¬ i ∈ᵇ K.cols[q]!) ∧ (∃ i, i ∈ᵇ K.cols[q]! ∧ ¬ i ∈ᵇ K.cols[x.left]!)) ∧
+    (x.kind = "orthogonal" ↔
+      (∃ i, i ∈ᵇ K.cols[x.left]! ∧ i ∈ᵇ K.cols[q]!) ∧ (∃ i, i ∈ᵇ K.cols[x.left]! ∧ ¬ i ∈ᵇ K.cols[q]!) ∧
+      (∃ i, i ∈ᵇ K.cols[q]! ∧ ¬ i ∈ᵇ K.cols[x.left]!) ∧
+      (∃ i, i < K.n ∧ ¬ i ∈ᵇ K.cols[x.left]! ∧ ¬ i ∈ᵇ K.cols[q]!)) := by
+  have hx' : x ∈ relations T K false := by
+    cases iu with
+    | false => exact hx
+    | true =>
+      rw [(C16_entries_unary_perm hT hK hn).mem_iff, List.mem_append] at hx
+      rcases hx with hx | hx
+      · rw [List.mem_map] at hx
+        obtain ⟨p, _, rfl⟩ := hx
+        cases hq
+      · exact hx
+  obtain ⟨i, j, hij, hj, hi, hj', hc⟩ := (C16_entries_mem hT hK hn x).mp hx'
+  have hbi := cols_bounded hK i
+  have hbj := cols_bounded hK j
+  obtain ⟨k1, k2, k3, k4, k5, k6⟩ := C16_kind_objects hT hbi hbj hi hj' hc
+  have hspec := C16_classify_total (T := T) (l := i) (r := j) hT hbi hbj hi hj'
+  rw [hc, Option.some.injEq] at hspec
+  by_cases h11 : binaryCode K.n (K.cols[i]!) (K.cols[j]!) = 11
+  · -- reported as implication j → i
+    have hxe : x = ⟨"implication", j, some i, 4⟩ := by rw [hspec, specBinary, if_pos h11]
+    have hsub := (code11_iff hbi hbj hi hj').mp h11
+    subst hxe
+    simp only [Option.some.injEq] at hq
+    subst hq
+    refine ⟨hj, by omega, ?_, ?_, ?_, ?_, ?_, ?_, ?_⟩
+    · show j ≠ i; omega
+    · have := k1; simp only at this ⊢
+      rw [this]; exact ⟨fun a i hi => (a i hi).symm, fun a i hi => (a i hi).symm⟩
+    · have := k2; simp only at this ⊢
+      rw [this]
+      exact ⟨fun a i hi => iff_not_comm.mp (a i hi), fun a i hi => iff_not_comm.mp (a i hi)⟩
+    · have := k3; simp only at this ⊢
+      rw [this]
+      constructor
+      · rintro ⟨a, i, b1, b2, b3⟩; exact ⟨fun i hi => a i hi.symm, i, b1, b3, b2⟩
+      · rintro ⟨a, i, b1, b2, b3⟩; exact ⟨fun i hi => a i hi.symm, i, b1, b3, b2⟩
+    · simp only [true_iff]
+      exact ⟨hsub.1, not_sub_iff.mp fun hs => hsub.2 (sub_antisymm hs hsub.1)⟩
+    · have := k5; simp only at this ⊢
+      rw [this]
+      constructor
+      · rintro ⟨a, ⟨i1, b1⟩, ⟨i2, b2⟩, ⟨i3, b3⟩⟩
+        exact ⟨fun i hi => (a i hi).symm, ⟨i1, b1.symm⟩, ⟨i3, b3⟩, ⟨i2, b2⟩⟩
+      · rintro ⟨a, ⟨i1, b1⟩, ⟨i2, b2⟩, ⟨i3, b3⟩⟩
+        exact ⟨fun i hi => (a i hi).symm, ⟨i1, b1.symm⟩, ⟨i3, b3⟩, ⟨i2, b2⟩⟩
+    · have := k6; simp only at this ⊢
+      rw [this]
+      constructor
+      · rintro ⟨⟨i1, b1⟩, ⟨i2, b2⟩, ⟨i3, b3⟩, ⟨i4, b4, b5, b6⟩⟩
+        exact ⟨⟨i1, b1.symm⟩, ⟨i3, b3⟩, ⟨i2, b2⟩, ⟨i4, b4, b6, b5⟩⟩
+      · rintro ⟨⟨i1, b1⟩, ⟨i2, b2⟩, ⟨i3, b3⟩, ⟨i4, b4, b5, b6⟩⟩
+        exact ⟨⟨i1, b1.symm⟩, ⟨i3, b3⟩, ⟨i2, b2⟩, ⟨i4, b4, b6, b5⟩⟩
+  · have hxl : x.left = i ∧ x.right = some j := by rw [hspec, specBinary, if_neg h11]; exact ⟨rfl, rfl⟩
+    obtain ⟨hxl, hxr⟩ := hxl
+    rw [hxr, Option.some.injEq] at hq
+    subst hq
+    rw [hxl]
+    refine ⟨by omega, hj, by omega, k1, k2, k3, k4.trans ?_, k5, k6⟩
+    constructor
+    · rintro (a | ⟨a, b⟩)
+      · exact a
+      · exfalso
+        apply h11
+        rw [code11_iff hbi hbj hi hj']
+        obtain ⟨i0, b1, b2⟩ := b
+        exact ⟨a, fun he => b2 (he ▸ b1)⟩
+    · exact Or.inl
+
+example : (relations pinnedTable (mkCtx 3 4 #[0b0101, 0b0111, 0b1110]) false).map
+    (fun x => (x.kind, x.left, x.right)) =
+    [("complement", 0, some 3), ("implication", 3, some 1), ("subcontrary", 0, some 1)] := by decide
+
+/-! ### printing: `Relations.tostring`, `Relations.__str__` (model: `relToString`) -/
+
+section render
+variable (names : Nat → Str)
+
+/-- nothing to list: the text is empty (the width is `max(..., default=0)`) -/
+theorem C16_render_empty (b : Bool) : relToString names [] b = [] := by cases b <;> rfl
+
+/-- before the repair the width was `max(...)` of the left labels, which fails exactly when there is
+nothing to list; the repaired computation is total and agrees with it otherwise -/
+theorem C16_render_strict (items : List RelItem) :
+    (relWidthStrict names items = .error .valueError ↔ items = []) ∧
+    (items ≠ [] → relWidthStrict names items = .ok (relWidth names items)) ∧
+    relWidth names [] = 0 := by
+  unfold relWidthStrict
+  cases items <;> simp [relWidth]
+
+/-- only orthogonal entries, and those excluded (`__str__`): the text is empty -/
+theorem C16_render_only_orthogonal {items : List RelItem} (h : ∀ r ∈ items, r.kind = "orthogonal") :
+    relToString names items true = [] ∧ relStr names items = [] := by
+  have : relKept true items = [] := by
+    unfold relKept
+    rw [if_pos rfl, List.filter_eq_nil_iff]
+    intro r hr
+    simp [h r hr]
+  refine ⟨?_, ?_⟩ <;> simp only [relStr, relToString, this] <;> rfl
+
+example : relStr (fun _ => ['a']) [⟨"orthogonal", 0, some 1, 7⟩] = [] := by decide
+
+/-- the text: one line per kept entry (all entries, or all but the orthogonal ones), in list order,
+joined by line breaks; a line is the left label padded to the common width, a blank, the kind padded
+to 12, a blank, and the right label (nothing for a unary entry — such a line ends in the blank) -/
+theorem C16_render_lines (items : List RelItem) (b : Bool) :
+    relToString names items b =
+      joinWith ['\n'] ((items.filter fun r => !(b && r.kind == "orthogonal")).map fun r =>
+        ljust (relWidth names items) (names r.left) ++ [' '] ++ ljust 12 r.kind.toList ++ [' '] ++
+          (match r.right with | some p => names p | none => [])) := by
+  have hk : relKept b items = items.filter fun r => !(b && r.kind == "orthogonal") := by
+    unfold relKept
+    cases b
+    · simp
+    · simp only [if_true, Bool.true_and]
+      apply List.filter_congr
+      intro r _
+      simp [bne]
+  unfold relToString
+  rw [hk]
+  rfl
+
+/-- `__str__` excludes the orthogonal entries -/
+theorem C16_render_str (items : List RelItem) : relStr names items = relToString names items true := rfl
+
+/-- when no label contains a line break, splitting the text at line breaks gives back exactly one
+line per kept entry (and the text is empty when no entry is kept) -/
+theorem C16_render_split (items : List RelItem) (b : Bool)
+    (hl : ∀ r ∈ items, '\n' ∉ names r.left) (hk : ∀ r ∈ items, '\n' ∉ r.kind.toList)
+    (hr : ∀ r ∈ items, ∀ p, r.right = some p → '\n' ∉ names p) :
+    (relKept b items = [] → relToString names items b = []) ∧
+    (relKept b items ≠ [] → splitChar '\n' (relToString names items b) =
+      (relKept b items).map (relLine names (relWidth names items))) := by
+  constructor
+  · intro h; unfold relToString; rw [h]; rfl
+  · intro h
+    unfold relToString
+    apply splitChar_nl_joinWith
+    · simpa using h
+    · intro line hline
+      obtain ⟨r, hr', rfl⟩ := List.mem_map.mp hline
+      have hri := (relKept_sublist b items).subset hr'
+      exact nl_not_mem_relLine _ (hl r hri) (hk r hri) (hr r hri)
+
+/-- the common width is the greatest length of a left label over ALL entries — the orthogonal ones
+included, also when they are not printed —, so every left column has exactly that width and the kind
+column starts at the same offset in every line -/
+theorem C16_render_width (items : List RelItem) :
+    (∀ r ∈ items, (names r.left).length ≤ relWidth names items ∧
+      (ljust (relWidth names items) (names r.left)).length = relWidth names items) ∧
+    ((items = [] ∧ relWidth names items = 0) ∨
+      ∃ r ∈ items, relWidth names items = (names r.left).length) := by
+  refine ⟨fun r hr => ?_, relWidth_attained names items⟩
+  have := le_relWidth names hr
+  exact ⟨this, by rw [length_ljust_max]; omega⟩
+
+example : relWidth (fun p => List.replicate (p + 1) 'x') [⟨"orthogonal", 4, some 1, 7⟩, ⟨"equivalent", 0, some 1, 1⟩] = 5 := by
+  decide
+
+/-- `%-12s` pads but never truncates (`contradiction` has 13 characters) -/
+example : ljust 12 "contradiction".toList = "contradiction".toList ∧ ljust 12 "tautology".toList = "tautology   ".toList := by
+  decide
+
+/-- the doctest of `junctors.py` -/
+example : relToString (fun p => ["Never", "Always", "Possibly", "Maybe"].toArray[p]!.toList)
+    [⟨"contradiction", 0, none, -2⟩, ⟨"tautology", 1, none, -1⟩, ⟨"contingency", 2, none, 0⟩,
+     ⟨"contingency", 3, none, 0⟩, ⟨"equivalent", 2, some 3, 1⟩] true =
+    ("Never    contradiction \nAlways   tautology    \nPossibly contingency  \nMaybe    contingency  \n" ++
+     "Possibly equivalent   Maybe").toList := by decide +kernel
+
+end render
+
+/-- the kinds of the entries of `relations` contain no line break -/
+theorem C16_kinds_no_newline {T : JTable} {K : Ctx} (hT : T.Good) (hK : K.WF) (hn : 0 < K.n) (iu : Bool) :
+    ∀ x ∈ relations T K iu, '\n' ∉ x.kind.toList := by
+  intro x hx
+  rw [relations_eq hT hK hn, (sortRel_perm _).mem_iff, List.mem_append] at hx
+  rcases hx with hx | hx
+  · cases iu
+    · simp at hx
+    · rw [if_pos rfl] at hx
+      obtain ⟨p, _, rfl⟩ := List.mem_map.mp hx
+      exact nl_not_mem_unaryKind _
+  · obtain ⟨q, _, rfl⟩ := List.mem_map.mp hx
+    exact nl_not_mem_kind_specBinary _ _ _ _ _
+
+/-- printing `relations()` is defined for every table, context, naming and both flags (the model is a
+total function), and … -/
+theorem C16_render_total (T : JTable) (K : Ctx) (names : Nat → Str) (iu b : Bool) :
+    ∃ s : Str, relationsToString T K names iu b = s := ⟨_, rfl⟩
+
+/-- … a context with fewer than two contingent properties — nothing to list — prints as the empty
+text (where `max()` of the empty sequence used to raise) -/
+theorem C16_render_nothing {T : JTable} {K : Ctx} (hT : T.Good) (hK : K.WF) (hn : 0 < K.n)
+    (h : (contingentProps K).length ≤ 1) (names : Nat → Str) (b : Bool) :
+    relationsToString T K names false b = [] ∧
+    relWidthStrict names (relations T K false) = .error .valueError := by
+  unfold relationsToString
+  rw [C16_entries_none hT hK hn h]
+  exact ⟨C16_render_empty names b, rfl⟩
+
+example : (contingentProps (mkCtx 2 2 #[0b11, 0b01])).length ≤ 1 := by decide
+
+/-- for newline-free property labels the printed text of `relations()` splits into exactly one line
+per kept entry, in the (sorted, stable) order of the list -/
+theorem C16_render_relations {T : JTable} {K : Ctx} (hT : T.Good) (hK : K.WF) (hn : 0 < K.n)
+    (names : Nat → Str) (hnames : ∀ p, '\n' ∉ names p) (iu b : Bool)
+    (hne : relKept b (relations T K iu) ≠ []) :
+    splitChar '\n' (relationsToString T K names iu b) =
+      (relKept b (relations T K iu)).map (relLine names (relWidth names (relations T K iu))) :=
+  (C16_render_split names _ b (fun _ _ => hnames _) (C16_kinds_no_newline hT hK hn iu)
+    (fun _ _ _ _ => hnames _)).2 hne
+
+example : relationsToString pinnedTable (mkCtx 3 4 #[0b0101, 0b0111, 0b1110])
+    (fun p => ["a", "bb", "ccc", "dddd"].toArray[p]!.toList) false true =
+    "a    complement   dddd\ndddd implication  bb\na    subcontrary  bb".toList := by decide +kernel
+
 end FCA
 
 #print axioms FCA.C16_table_good
@@ -359,3 +750,19 @@ end FCA
 #print axioms FCA.C16_entries_unary_perm
 #print axioms FCA.C16_sorted_stable
 #print axioms FCA.C16_relations_stable
+#print axioms FCA.C16_unary_stable
+#print axioms FCA.C16_unary_stable_props
+#print axioms FCA.C16_good_patterns_once
+#print axioms FCA.C16_good_names_once
+#print axioms FCA.C16_kind_objects
+#print axioms FCA.C16_kind_objects_relations
+#print axioms FCA.C16_render_empty
+#print axioms FCA.C16_render_strict
+#print axioms FCA.C16_render_only_orthogonal
+#print axioms FCA.C16_render_lines
+#print axioms FCA.C16_render_split
+#print axioms FCA.C16_render_width
+#print axioms FCA.C16_kinds_no_newline
+#print axioms FCA.C16_render_total
+#print axioms FCA.C16_render_nothing
+#print axioms FCA.C16_render_relations
